@@ -15,7 +15,8 @@ RULE = ('0-4 metric definitions (types COUNTER / GAUGE / HISTOGRAM / SUMMARY in 
         'names in a separate stream; 0-3 labels: static str / int / bool / None, evaluated, failing, repeated keys; '
         'expression absent / empty / int / float / bool / numeric text / non-numeric / failing / an int too large for a '
         'float (OverflowError) / objects whose __float__ raises, returns a non-float or converts / naming host globals '
-        'and agent-only names; namespace absent / empty / given; help, unit absent or given) x 0-3 recording processors, '
+        'and agent-only names; namespace absent / empty / given; help, unit absent or given) x 0-3 recording processors (some are '
+        'falsy objects: __len__ = samples recorded so far, or __bool__ False), '
         'each failing on a chosen set of attempts, x 1-4 hits with fire_count / fire_period and a per-hit condition '
         '(true / false / raising) through the real TriggerHandler.trace_call on frame-like mocks or REAL frames. '
         'Non-trivial: at least 2 calls expected, or no processor with a permitted hit, or a failing processor beside a '
@@ -76,6 +77,9 @@ def gen_case(rng, bad_types=False):
             procs.append({'fails': []})
         else:
             procs.append({'fails': sorted(rng.sample(range(8), rng.randint(1, 4)))})
+        if rng.random() < 0.35:
+            # a registered processor object that is falsy: __len__ = samples recorded so far (0 at start) / __bool__ False
+            procs[-1]['falsy'] = rng.choice(['len', 'bool'])
     cfg = {}
     fc, fp = rng.choice(COUNTS), rng.choice(PERIODS)
     if fc is not None:
@@ -119,6 +123,8 @@ def corpus():
         dict(base, cfg={'fire_count': '1'}, condition='cond()', defs=[d1], procs=[{'fails': []}, {'fails': [0, 1]}, {'fails': []}],
              hits=[{'ts': 5, 'cond': {'k': 'false'}}, {'ts': 6, 'cond': {'k': 'raise', 'cls': 'KeyError', 'msg': 1}},
                    {'ts': 7, 'cond': t}, {'ts': 9 * 10 ** 9, 'cond': t}]),
+        dict(base, defs=[d1], procs=[{'fails': [], 'falsy': 'len'}], hits=[{'ts': 5, 'cond': t}, {'ts': 6, 'cond': t}]),
+        dict(base, defs=[d1, d2], procs=[{'fails': [], 'falsy': 'bool'}, {'fails': [0], 'falsy': 'len'}], hits=[{'ts': 5, 'cond': t}]),
         dict(base, stream='badtype', defs=[dict(d1, type='TIMER'), d2], procs=[{'fails': []}], hits=[{'ts': 5, 'cond': t}]),
     ]
 
@@ -138,6 +144,23 @@ class Proc(RecMetric):
         if k in self.fails:
             raise RuntimeError('metric processor failure at attempt %d' % k)
         self.calls.append((op,) + a)
+
+
+class LenProc(Proc):
+    """a collecting processor whose length is the number of samples recorded so far (empty = falsy)"""
+
+    def __len__(self):
+        return len(self.calls)
+
+
+class BoolProc(Proc):
+    def __bool__(self):
+        return False
+
+
+def make_proc(i, p):
+    cls = {'len': LenProc, 'bool': BoolProc}.get(p.get('falsy'), Proc)
+    return cls('P%d' % i, p['fails'])
 
 
 def canon_label(v):
@@ -161,8 +184,8 @@ def canon_call(c):
 def run_impl(case):
     from deep.api.tracepoint.trigger import build_trigger
     from deep.api.tracepoint.tracepoint_config import MetricDefinition, LabelExpression
-    procs = [Proc('P%d' % i, p['fails']) for i, p in enumerate(case['procs'])]
-    rig = Rig(plugins=procs)
+    procs = [make_proc(i, p) for i, p in enumerate(case['procs'])]
+    rig = Rig(plugins=list(procs))
     try:
         name = X.unique('verif_host_c17')
         mod = X.make_module(name, GLOBALS)
